@@ -218,29 +218,58 @@ func ruleConstantExactness(c *Ctx, rule string) {
 	// overflow check dominates integer results
 	ov := c.P.Func("base/untyped.ConvertLiteralCheckOverflow")
 	okOv := false
-	if ov != nil {
+	if ov != nil && len(ov.Type.Params.List) > 0 && len(ov.Type.Params.List[0].Names) > 0 {
+		srcObj := info.Defs[ov.Type.Params.List[0].Names[0]]
 		ast.Inspect(ov.Body, func(nd ast.Node) bool {
 			ifs, ok := nd.(*ast.IfStmt)
 			if !ok {
 				return true
 			}
-			s := exprString(ifs.Cond)
-			if !(strings.Contains(s, "Int") && strings.Contains(s, "Uint") && strings.Contains(s, "||")) {
+			// guard: X == r.Int || X == r.Uint
+			cats := map[string]bool{}
+			for _, a := range orAtoms(ifs.Cond) {
+				if b, ok := unparen(a).(*ast.BinaryExpr); ok && b.Op == token.EQL {
+					if o := usedObj(info, b.Y); o != nil && o.Pkg() != nil && o.Pkg().Path() == "reflect" {
+						cats[o.Name()] = true
+					}
+				}
+			}
+			if !(cats["Int"] && cats["Uint"] && len(cats) == 2) {
 				return true
 			}
-			ncmp, nerr := 0, 0
-			ast.Inspect(ifs, func(m ast.Node) bool {
-				if b, ok := m.(*ast.BinaryExpr); ok && b.Op == token.NEQ && identOf(b.X) != nil && identOf(b.X).Name == "src" {
-					ncmp++
+			// every innermost branch below the guard checks `src != back` as the whole condition of an if that reports an error
+			nchk := 0
+			ast.Inspect(ifs.Body, func(m ast.Node) bool {
+				inner, ok := m.(*ast.IfStmt)
+				if !ok {
+					return true
+				}
+				b, ok := unparen(inner.Cond).(*ast.BinaryExpr)
+				if !ok || b.Op != token.NEQ || identOf(b.X) == nil || info.Uses[identOf(b.X)] != srcObj {
+					return true
+				}
+				errs := false
+				inspectCalls(inner.Body, func(call *ast.CallExpr) {
+					if fn := calleeOf(info, call); fn != nil && isErrorHelper(fn) {
+						errs = true
+					}
+				})
+				if errs {
+					nchk++
 				}
 				return true
 			})
-			inspectCalls(ifs, func(call *ast.CallExpr) {
-				if fn := calleeOf(info, call); fn != nil && isErrorHelper(fn) {
-					nerr++
+			// the guard's body is an if/else over the source category: both branches must check
+			nbranch := 0
+			for _, st := range ifs.Body.List {
+				if br, ok := st.(*ast.IfStmt); ok {
+					nbranch = 1
+					if br.Else != nil {
+						nbranch = 2
+					}
 				}
-			})
-			if ncmp >= 2 && nerr >= 2 {
+			}
+			if nchk >= 2 && nchk >= nbranch {
 				okOv = true
 			}
 			return true
@@ -472,4 +501,166 @@ func ruleUntypedOperators(c *Ctx, rule string) {
 		c.Ob(rule, "fast.tokenRemoveAssign", nil, false, "operator tables not found: anchor missing")
 	}
 	_ = constant.Int
+}
+
+// ruleInexactUndefined (K1): constant.Int64Val and constant.Uint64Val document their first result as
+// undefined when the second is false. Every path of every function of base/untyped is enumerated
+// (flag and category variables concretely, other conditions forked); a value obtained with a false
+// flag must not flow into a result of the function.
+func ruleInexactUndefined(c *Ctx, rule string) {
+	pk := c.P.Pkg("base/untyped")
+	info := pk.TypesInfo
+	n := 0
+	for _, fd := range c.P.FuncsOf("base/untyped") {
+		has := false
+		ast.Inspect(fd.Body, func(nd ast.Node) bool {
+			if as, ok := nd.(*ast.AssignStmt); ok && len(as.Lhs) == 2 && len(as.Rhs) == 1 {
+				if call, ok := unparen(as.Rhs[0]).(*ast.CallExpr); ok {
+					if fn := calleeOf(info, call); fn != nil && fn.Pkg() != nil && fn.Pkg().Path() == "go/constant" && (fn.Name() == "Int64Val" || fn.Name() == "Uint64Val") {
+						has = true
+					}
+				}
+			}
+			return true
+		})
+		if !has {
+			continue
+		}
+		n++
+		x := &pxExec{info: info, undefinedWhenInexact: map[string]bool{"Int64Val": true, "Uint64Val": true}, maxPaths: 200000,
+			terminates: func(call *ast.CallExpr) bool {
+				fn := calleeOf(info, call)
+				return fn != nil && fn.Pkg() != nil && strings.HasSuffix(fn.Pkg().Path(), "/output") && fn.Name() == "Errorf"
+			}}
+		x.runFunc(fd)
+		key := funcKey(pk, fd)
+		ok := len(x.violations) == 0 && len(x.unsupported) == 0 && x.paths <= x.maxPaths
+		detail := fmt.Sprintf("%d paths enumerated; the first result of Int64Val/Uint64Val is used only where its exact flag is true", x.paths)
+		if len(x.violations) > 0 {
+			detail = x.violations[0] + fmt.Sprintf(" (%d violating paths of %d)", len(x.violations), x.paths)
+		} else if len(x.unsupported) > 0 {
+			detail = "undecided: unsupported statement " + x.unsupported[0]
+		} else if x.paths > x.maxPaths {
+			detail = "undecided: too many paths"
+		}
+		c.Ob(rule, key, fd, ok, detail)
+	}
+	if n < 3 {
+		c.Ob(rule, "base/untyped", nil, false, "fewer than 3 functions use Int64Val/Uint64Val: anchor missing")
+	}
+}
+
+// ruleSliceConversionNotFolded (S1): in Go a conversion to []byte / []rune is not a constant expression: each
+// execution allocates a new slice. In Comp.convert every compile-time folding site (EvalConst, ConstTo(t) with
+// the target type, a compile-time call of convert()) is therefore guarded by `t.Kind() != Slice`.
+func ruleSliceConversionNotFolded(c *Ctx, rule string) {
+	pk := c.P.Pkg("fast")
+	info := pk.TypesInfo
+	fd := c.P.Func("fast.Comp.convert")
+	if fd == nil {
+		c.Ob(rule, "fast.Comp.convert", nil, false, "anchor function not found")
+		return
+	}
+	// the target type parameter
+	var target types.Object
+	for _, f := range fd.Type.Params.List {
+		for _, nm := range f.Names {
+			if o := info.Defs[nm]; o != nil && isNamedType(o.Type(), "xreflect", "Type") && target == nil {
+				target = o
+			}
+		}
+	}
+	if target == nil {
+		c.Ob(rule, "fast.Comp.convert/target", fd, false, "target type parameter not found")
+		return
+	}
+	// atom: target.Kind() OP xr.Slice
+	isAtom := func(e ast.Expr, op token.Token) bool {
+		b, ok := unparen(e).(*ast.BinaryExpr)
+		if !ok || b.Op != op {
+			return false
+		}
+		call, ok := unparen(b.X).(*ast.CallExpr)
+		if !ok {
+			return false
+		}
+		s, ok := unparen(call.Fun).(*ast.SelectorExpr)
+		if !ok || s.Sel.Name != "Kind" || identOf(s.X) == nil || info.Uses[identOf(s.X)] != target {
+			return false
+		}
+		o := usedObj(info, b.Y)
+		return o != nil && o.Name() == "Slice"
+	}
+	// path of enclosing statements for each site
+	var stack []ast.Node
+	type site struct {
+		n     ast.Node
+		what  string
+		stack []ast.Node
+	}
+	var sites []site
+	ast.Inspect(fd.Body, func(n ast.Node) bool {
+		if n == nil {
+			stack = stack[:len(stack)-1]
+			return true
+		}
+		stack = append(stack, n)
+		if _, isLit := n.(*ast.FuncLit); isLit {
+			stack = stack[:len(stack)-1]
+			return false // run-time code
+		}
+		if call, ok := n.(*ast.CallExpr); ok {
+			fn := calleeOf(info, call)
+			what := ""
+			switch {
+			case fn != nil && fn.Name() == "EvalConst":
+				what = "EvalConst"
+			case fn != nil && fn.Name() == "ConstTo" && len(call.Args) == 1 && identOf(call.Args[0]) != nil && info.Uses[identOf(call.Args[0])] == target:
+				what = "ConstTo(target)"
+			case fn != nil && funcFullName(fn) == "fast.convert":
+				what = "convert()"
+			}
+			if what != "" {
+				sites = append(sites, site{call, what, append([]ast.Node{}, stack...)})
+			}
+		}
+		return true
+	})
+	// function-level early exit: a top-level `if target.Kind() == Slice { ... return }` before the site
+	earlyExit := token.NoPos
+	for _, st := range fd.Body.List {
+		if ifs, ok := st.(*ast.IfStmt); ok && ifs.Else == nil && isAtom(ifs.Cond, token.EQL) && len(ifs.Body.List) > 0 {
+			if _, isRet := ifs.Body.List[len(ifs.Body.List)-1].(*ast.ReturnStmt); isRet {
+				earlyExit = ifs.End()
+				break
+			}
+		}
+	}
+	for _, s := range sites {
+		guarded := earlyExit != token.NoPos && s.n.Pos() > earlyExit
+		for i, anc := range s.stack {
+			ifs, ok := anc.(*ast.IfStmt)
+			if !ok || i+1 >= len(s.stack) {
+				continue
+			}
+			next := s.stack[i+1]
+			if next == ast.Node(ifs.Body) {
+				for _, a := range andAtoms(ifs.Cond) {
+					if isAtom(a, token.NEQ) {
+						guarded = true
+					}
+				}
+			} else if ifs.Else != nil && next == ast.Node(ifs.Else) {
+				for _, a := range orAtoms(ifs.Cond) {
+					if isAtom(a, token.EQL) {
+						guarded = true
+					}
+				}
+			}
+		}
+		c.Ob(rule, "fast.Comp.convert/"+s.what, s.n, guarded, "compile-time folding site "+s.what+" is reached only when the target type is not a slice: []byte(\"abc\") must allocate a new slice at each execution")
+	}
+	if len(sites) < 3 {
+		c.Ob(rule, "fast.Comp.convert/sites", fd, false, fmt.Sprintf("only %d folding sites found: anchor missing", len(sites)))
+	}
 }
